@@ -77,6 +77,7 @@ def run_property(pid: str, tier: str = "quick", seed: int = 0, write_evidence: b
         from geolint import sweep
 
         sweep.run(run, prog, seed)
+        sweep.run_metamorphic(run, prog)
     if replay:
         with open(replay, encoding="utf-8") as fh:
             r = json.load(fh)
@@ -219,14 +220,16 @@ def check_c09(run: Run, prog: Program) -> None:
         "have degree 0 in the raw coordinates of every argument. NOT decided: the values of the formulas, branch cuts "
         "of log/sqrt, isometry invariance."
     )
-    fn = prog.func("dist")
+    fn = prog.body_of(prog.func("dist"))
     n = dispatch.analyse(run, prog, fn, C09_DOCUMENTED)
     run.floor("ordered kind pairs evaluated", n, 100)
     from geolint import homog
 
     # homogeneity clause: the base formula of dist and the value of angle have degree 0 in every argument
     names = {"_point_dist", "angle", "dist"}
-    n2 = homog.add_returns(run, prog, lambda f: f.cls is None and f.name in names, extra_names=names)
+    impls = {prog.body_of(f).qualname for f in prog.package_functions() if f.cls is None and f.name in names}
+    names |= {prog.functions[q].name for q in impls}
+    n2 = homog.add_returns(run, prog, lambda f: f.qualname in impls, extra_names=names)
     run.floor("return paths of the distance/angle formulas", n2, 3)
 
 
